@@ -302,7 +302,14 @@ impl SlabRouter {
         match Self::classify_key(key) {
             KeyClass::Embedding => {
                 let _guard = self.emb_lock(key).read();
-                self.index.contains(key) || self.metadata.contains(key)
+                // Exactly the keys `get` finds: an index entry alone is not a value yet
+                // (`put_durable` registers a new key in the index, for its log record,
+                // before the value is applied)
+                self.metadata.contains(key)
+                    || self
+                        .index
+                        .get(key)
+                        .is_some_and(|entity_id| self.embeddings.contains(entity_id))
             },
             KeyClass::Cache => self.cache.contains(key),
             _ => self.metadata.contains(key),
@@ -319,8 +326,12 @@ impl SlabRouter {
             .map(|(k, _)| k)
             .collect();
 
+        // Index entries are listed only once `get` finds the key: `put_durable` registers a
+        // new key in the entity index while its value is still in flight.
         for (key, _) in self.index.scan_prefix(prefix) {
-            keys.insert(key);
+            if !keys.contains(&key) && self.exists(&key) {
+                keys.insert(key);
+            }
         }
 
         for key in self.cache.scan_prefix(prefix) {
